@@ -57,6 +57,17 @@ func unsupported_() []*Unsupported {
 				return &FileSpec{Name: "p.proto", Msgs: []*M{ok(), msg("U", nil, fld("Str", TString), mapfld("Bad", tsfld("v")))}}
 			}},
 	}
+	us = append(us,
+		&Unsupported{Name: "U-time-below-nested-map", Cfg: noTime("U", "Ok"), Broken: []string{"U"}, Intact: []string{"Ok"}, Exclude: []string{"U.Sub.Items.Bad"},
+			File: func() *FileSpec {
+				return &FileSpec{Name: "p.proto", Msgs: []*M{ok(), msg("Deep", nil, fld("Y", TString), tsfld("Bad")), msg("Inner", nil, mapfld("Items", mfld("v", "Deep")), fld("X", TString)),
+					msg("U", nil, mfld("Sub", "Inner"), fld("Str", TString))}}
+			}},
+		&Unsupported{Name: "U-dur-below-nested-list", Cfg: noDur("U", "Ok"), Broken: []string{"U"}, Intact: []string{"Ok"}, Exclude: []string{"U.Sub.Items.Bad"},
+			File: func() *FileSpec {
+				return &FileSpec{Name: "p.proto", Msgs: []*M{ok(), msg("Deep", nil, fld("Y", TString), dufld("Bad")), msg("Inner", nil, mfld("Items", "Deep").rep(), fld("X", TString)),
+					msg("U", nil, mfld("Sub", "Inner").nonnull(), fld("Str", TString))}}
+			}})
 	// two selected types reach the same nested message with the unmappable field; the field is excluded
 	// by path below one of them only: that one is generated whole, the other not at all
 	shared := func() *FileSpec {
@@ -306,7 +317,7 @@ func observeDeterminism(pluginBin, out string, seed int64) []*Observation {
 // with their declarations); with sort: true the three files must be byte-identical.
 func observeSorted(pluginBin, out string) []*Observation {
 	var res []*Observation
-	for _, name := range []string{"P-docs", "P-flags", "P-multi", "P-mini", "P-oneof", "P-embed", "P-embed-x", "P-nest", "P-names", "P-mapopt", "P-time"} {
+	for _, name := range []string{"P-docs", "P-flags", "P-multi", "P-mini", "P-oneof", "P-embed", "P-embed-x", "P-nest", "P-names", "P-mapopt", "P-time", "P-sorted", "P-oneof-excl"} {
 		base := findProgram(name)
 		o := &Observation{Name: "S-" + name, Mode: "sorted"}
 		res = append(res, o)
